@@ -71,6 +71,11 @@ def _axioms():
                        patterns=[z3.MultiPattern(smt.pow256(n), smt.pow256(m))]))
     for c in range(0, 41):
         A.append(smt.pow2(z3.IntVal(c)) == z3.IntVal(1 << c))        # pow2(c) = 2^c (ground instances only)
+    # a byte string whose first octet is below 2^t encodes an integer of at most 8(len-1)+t bits
+    for t in range(0, 9):
+        A.append(z3.ForAll([b], z3.Implies(z3.And(isb(b), slen(b) >= 1, smt.sat(b, 0) < (1 << t)),
+                                           BitLen(smt.s_val(b)) <= 8 * (slen(b) - 1) + t),
+                           patterns=[smt.s_val(b)]))
     return A
 
 
